@@ -380,6 +380,8 @@ CheckCb(tk, e, tk2) ==
            "C08", "a task issued its transition but was not removed from the plan")
     \cup V(step /\ HasHead /\ pb # <<>> /\ pb[1][1] = a0 /\ a0 \in tk.succ /\ tk.fail = {} /\ tk.sawF = {} => ~IsPlanCb(e.m) /\ pos # <<>> /\ pos[1] = 1,
            "C08", "the first task did not fire although its origin is active and reported success without failures")
+    \cup V(step /\ HasHead /\ tk.lastreq # NoT /\ pb # <<>> /\ pb[1][1] = a0 /\ a0 \in tk.succ /\ tk.fail = {} /\ tk.sawF = {} => ~IsPlanCb(e.m) /\ pos # <<>> /\ pos[1] = 1,
+           "C02", "the plan's request (the latest of the cycle) did not replace the earlier unprocessed request")
     \cup V(~step /\ ~IsPlanCb(e.m) /\ rstart /\ proc /\ tk.op \in {"update", "react"} /\ tk.stepDone /\ tk.rounds = 0 /\ tk.outcome = 2
              => ~(\E q \in 1 .. Len(tk.planBefore) : tk.planBefore[q] = e.pend) \/ (e.pend[1] = tk.lastreq[1] /\ e.pend[2] = tk.lastreq[2]),
            "C09", "a task fired in a cycle that delivered planFailed")
@@ -484,6 +486,8 @@ CheckRet(tk, e, tk2) ==
            "C08", "a task fired whose origin is not the active state with an outstanding success, or past a task of another origin")
     \cup V(step /\ HasHead /\ pb # <<>> /\ pb[1][1] = a0 /\ a0 \in tk.succ /\ tk.fail = {} /\ tk.sawF = {} => pos # <<>> /\ pos[1] = 1,
            "C08", "the first task did not fire although its origin is active and reported success without failures")
+    \cup V(step /\ HasHead /\ tk.lastreq # NoT /\ pb # <<>> /\ pb[1][1] = a0 /\ a0 \in tk.succ /\ tk.fail = {} /\ tk.sawF = {} => pos # <<>> /\ pos[1] = 1,
+           "C02", "the plan's request (the latest of the cycle) did not replace the earlier unprocessed request")
     \cup V(step /\ pb # <<>> /\ a0 \in tk.fail /\ HasHead => FALSE, "C09", "planFailed not delivered although the plan is non-empty and the active state reported failure")
     )
 
